@@ -59,6 +59,8 @@ def lit(v):
         return s if v >= 0 else '(0 - ' + s[1:] + ')'
     if isinstance(v, str):
         return "'" + v.replace('\\', '\\\\').replace("'", "\\'") + "'"
+    if isinstance(v, list):
+        return 'arrayNew(' + ', '.join(lit(x) for x in v) + ')'
     raise TypeError(v)
 
 
@@ -85,7 +87,10 @@ def gen_history(rnd, nops):
     def new_container(name):
         if rnd.random() < 0.6:
             vals = [rnd.choice([0, 1, 2, 2, 'a', 'b', None, True, 1.5]) for _ in range(rnd.randint(0, 4))]
-            pool[name] = list(vals)
+            if rnd.random() < 0.15:
+                # arrays of arrays of different lengths (neither a prefix of the other): element-wise order, not shortest-first
+                vals = [list(rnd.choice([[2], [1, 5], [1], [1, 2, 3], [3, 0], [], [1, 5, 0], [2, 0, 0, 0], ['a'], [0, 9]])) for _ in range(rnd.randint(2, 5))]
+            pool[name] = [list(v) if isinstance(v, list) else v for v in vals]
             steps.append(('new', name, 'A', vals))
         else:
             ks = rnd.sample(['a', 'b', 'c', 'd'], rnd.randint(0, 3))
@@ -132,7 +137,15 @@ def gen_history(rnd, nops):
                     container(c)
                 elif c == 'i':
                     base = args[0] if args and isinstance(args[0], (list, str)) else []
-                    add(rnd.randint(-2, len(base) + 2) if rnd.random() < 0.9 else rnd.choice([1.5, None]))
+                    y = rnd.random()
+                    if y < 0.85:
+                        add(rnd.randint(-2, len(base) + 2))
+                    elif y < 0.93:
+                        # not integers, however close: 2.9999999999999996 (0.3 / 0.1), k + 1e-10 - an invalid index, never "rounded"
+                        k = rnd.randint(0, len(base) + 1)
+                        add(rnd.choice([math.nextafter(float(k), -1.0) if k else 5e-324, math.nextafter(float(k), 1e9), k + 1e-10, k - 1e-12 if k else 1e-12, k + 0.5]))
+                    else:
+                        add(rnd.choice([1.5, None]))
                 elif c == 'n':
                     add(rnd.choice([0, 1, 2, 3, 1.5, -1]))
                 elif c == 's':
@@ -221,7 +234,7 @@ def run_model(steps, bool_num=False, stop_on_cycle=False):
         for st in steps:
             if st[0] == 'new':
                 _, name, kind, vals = st
-                pool[name] = list(vals) if kind == 'A' else {k: v for k, v in vals}
+                pool[name] = [list(v) if isinstance(v, list) else v for v in vals] if kind == 'A' else {k: v for k, v in vals}
             elif st[0] == 'alias':
                 pool[st[1]] = pool[st[2]]
             else:
